@@ -102,6 +102,27 @@ CLAIMED = {
         "technique": "Coq proof (list induction over the sorted family) on a translator-generated model; exact differential; textbook oracle",
         "design": "DESIGN.md section 5, C10",
     },
+    "C03": {
+        "text": "Coq theorems (props/C03.v) over the hand model of the orchestration (model/Experiment.v): with only aggregated "
+                "metrics the fetch trace is exactly one grouped aggregate query whatever the number of metrics, pairs and rows; "
+                "with row-level metrics exactly one more fetch of exactly the declared columns (+ variant); solve_power: one "
+                "ungrouped aggregate query. Tie: fetch counters on Polars LazyFrame.collect and Ibis Table.to_pyarrow (rows, columns)",
+        "note": "trusted: Coq kernel (no axioms), hand model tied by the counter differential only, counters see every "
+                "materialisation path; 'one row per variant' observed, and part of the plan semantics of C01",
+        "technique": "Coq proof (induction over the metric list) on a hand trace model; fetch-counter differential on lazy backends",
+        "design": "DESIGN.md section 5, C03",
+    },
+    "C12": {
+        "text": "Coq theorems (props/C12.v): the pair functions and the ValueError guard regenerated from Experiment.analyze give "
+                "exactly the documented pairs (control vs every other variant / all pairs with the smaller id as control, no "
+                "duplicates, guard iff not exactly one pair without all_variants); a Mean/RatioOfMeans entry depends only on the "
+                "statistics the metric declared. Differential: every entry equals the metric analysed alone, on five backends, "
+                "with int/str/bool ids; declared statistics/rows of user-defined metrics are exact; solve_power likewise",
+        "note": "trusted: Coq kernel + real axioms (agree theorem), exp2coq pair translator, variant ids as integers in the model; "
+                "dispatch and the non-Mean metrics only through the differential",
+        "technique": "Coq proof over translator-generated pair functions and formulas; stand-alone-vs-experiment differential",
+        "design": "DESIGN.md section 5, C12",
+    },
 }
 REASONS = {}
 
